@@ -6,6 +6,7 @@ import OpusProofs.DecSkelShift
 import OpusProofs.CeltIdx
 import OpusProofs.CeltIdxCalls
 import OpusProofs.DecSkelMsDur
+import OpusProofs.CeltCallees
 /-
   Property C01 — "Decoding is total and memory-safe for arbitrary packets and call histories".
 
@@ -623,5 +624,77 @@ example : ∃ st1 st2, init 48000 2 = some st1 ∧ init 48000 1 = some st2 ∧
       · exact ⟨init_inv (fs := 48000) (ch := 1) rfl, rfl⟩) rfl
     [0xF8, 2, 7, 7, 0xFC, 9] (by decide) 6 960 (by decide) false 960 (by decide +kernel) (by decide)
   exact h.1
+
+/-! ## Index-safety bridge, third part: callee contracts discharged from the callee code
+
+  `OpusModel/CeltCallees.lean` lists, loop by loop, every element the C reference implementations of `celt_fir_c`,
+  `celt_iir`, `_celt_autocorr` (with `celt_pitch_xcorr_c`, `xcorr_kernel_c`, `celt_inner_prod_c`), `_celt_lpc` and
+  `pitch_downsample` (with `celt_fir5`) touch — argument arrays and local arrays (hand transcription, file:line cited).
+  `InB B h`: hit `h` lies inside the bounds `B` gives for its array; an array with bounds `(1, 0)` must not be touched. -/
+
+open Opus.CeltCallees in
+/-- **celt_callee_contracts.**  For ALL argument values within the routines' own preconditions, every element touched
+    lies inside the extent contract the bridge assumes for the routine (`Opus.CeltIdx.Call.accs`, see the examples below)
+    and inside the routine's local arrays:
+    `celt_fir_c`: `x[−ord .. N)`, `num[0 .. ord)`, `y[0 .. N)`, local `rnum[ord]` (`N ≥ 0`, `ord ≥ 3`);
+    `celt_iir`: `x[0 .. N)`, `den[0 .. ord)`, `y[0 .. N)`, `mem[0 .. ord)`, locals `rden[ord]`, `y[N+ord]` (`3 ≤ ord ≤ N`);
+    `_celt_autocorr`: `x[0 .. n)`, `ac[0 .. lag]`, `window[0 .. overlap)`, local `xx[n]` (`0 ≤ overlap ≤ n`, `lag ≥ 0`,
+    `n − lag ≥ 3`);  `_celt_lpc`: `lpc[0 .. p)`, `ac[0 .. p]`;
+    `pitch_downsample`: `x[c][0 .. len)` (second channel only for stereo), `x_lp[0 .. len/2)`, locals `ac[5]`, `lpc[4]`,
+    `lpc2[5]` (`len ≥ 14`).  The SIMD variants chosen at run time are covered by the sanitizer probes of the tie. -/
+theorem celt_callee_contracts :
+    (∀ N ord : Int, 0 ≤ N → 3 ≤ ord → All (InB (firB N ord)) (firHits N ord)) ∧
+    (∀ N ord : Int, 3 ≤ ord → ord ≤ N → All (InB (iirB N ord)) (iirHits N ord)) ∧
+    (∀ overlap lag n : Int, 0 ≤ overlap ∧ overlap ≤ n → 0 ≤ lag → 3 ≤ n - lag →
+      All (InB (acorrB overlap lag n)) (autocorrHits overlap lag n)) ∧
+    (∀ p : Int, 0 ≤ p → All (InB (lpcB p)) (lpcHits p)) ∧
+    (∀ (len : Int) (stereo : Bool), 14 ≤ len → All (InB (pdownB len stereo)) (pdownHits len stereo)) :=
+  ⟨fir_in, iir_in, acorr_in, lpc_in, pdown_in⟩
+
+open Opus.CeltCallees Opus.CeltIdx in
+/-- The bounds above are the bridge's contracts (`Call.accs`), read off at pointer offset 0. -/
+example (n ord : Int) :
+    (Call.fir ⟨.exc, 0⟩ ⟨.lpc, 0⟩ ⟨.fir, 0⟩ n ord).accs.map (fun a => (a.ext.lo, a.ext.hi)) =
+      [firB n ord .x, firB n ord .num, firB n ord .y] ∧
+    (Call.iir ⟨.mem 0, 0⟩ ⟨.lpc, 0⟩ ⟨.mem 0, 0⟩ n ord ⟨.lpcMem, 0⟩).accs.map (fun a => (a.ext.lo, a.ext.hi)) =
+      [iirB n ord .x, iirB n ord .num, iirB n ord .y, iirB n ord .mem, iirB n ord .mem] ∧
+    (Call.acorr ⟨.exc, 0⟩ ⟨.ac, 0⟩ 120 ord n).accs.map (fun a => (a.ext.lo, a.ext.hi)) =
+      [acorrB 120 ord n .x, acorrB 120 ord n .ac] ∧
+    (Call.lpc ⟨.lpc, 0⟩ ⟨.ac, 0⟩ n).accs.map (fun a => (a.ext.lo, a.ext.hi)) = [lpcB n .lpc, lpcB n .ac] ∧
+    (Call.pdown ⟨.mem 0, 0⟩ (some ⟨.mem 1, 0⟩) ⟨.lpbuf, 0⟩ n).accs.map (fun a => (a.ext.lo, a.ext.hi)) =
+      [pdownB n true .x, pdownB n true .xlp, pdownB n true .xlp, pdownB n true .x1] := by
+  simp [Call.accs, rd, wr, firB, iirB, acorrB, lpcB, pdownB]
+
+open Opus.CeltCallees Opus.CeltIdx Opus.Gen.CeltIdxConsts in
+/-- …and the arguments celt_decoder.c passes satisfy the preconditions: `celt_fir(…, exc_length ∈ [200, 1024], 24)`,
+    `celt_iir(…, N+overlap ≥ 240, 24, …)`, `_celt_autocorr(exc, ac, window, 120, 24, 1024)`, `_celt_lpc(…, 24)`,
+    `pitch_downsample(decode_mem, lp_pitch_buf, 2048, C)`. -/
+theorem celt_callee_contracts_at_decoder_args (pitch : Int) (hp : PitchOk pitch) (N LM : Int) (hf : LegalFrame N LM)
+    (stereo : Bool) :
+    All (InB (firB (excLen pitch) CELT_LPC_ORDER)) (firHits (excLen pitch) CELT_LPC_ORDER) ∧
+    All (InB (iirB (N + overlap) CELT_LPC_ORDER)) (iirHits (N + overlap) CELT_LPC_ORDER) ∧
+    All (InB (acorrB overlap CELT_LPC_ORDER MAX_PERIOD)) (autocorrHits overlap CELT_LPC_ORDER MAX_PERIOD) ∧
+    All (InB (lpcB CELT_LPC_ORDER)) (lpcHits CELT_LPC_ORDER) ∧
+    All (InB (pdownB DECODE_BUFFER_SIZE stereo)) (pdownHits DECODE_BUFFER_SIZE stereo) := by
+  have hN := legalFrame_cases hf
+  have h24 : (24 : Int) = CELT_LPC_ORDER := rfl
+  have hv : (120 : Int) = overlap := rfl
+  have hM : (1024 : Int) = MAX_PERIOD := rfl
+  have hD : (2048 : Int) = DECODE_BUFFER_SIZE := rfl
+  have h100 : (100 : Int) = PLC_PITCH_LAG_MIN := rfl
+  obtain ⟨hp0, hp1⟩ := hp
+  exact ⟨fir_in _ _ (by unfold excLen; omega) (by omega), iir_in _ _ (by omega) (by omega),
+    acorr_in _ _ _ ⟨by omega, by omega⟩ (by omega) (by omega), lpc_in _ (by omega), pdown_in _ _ (by omega)⟩
+
+open Opus.CeltCallees in
+/-- Non-vacuity / tightness: the models do reach the ends of their contracts — `celt_fir_c(…, N = 8, ord = 4)` touches
+    `x[-4]` and `x[7]`, `celt_iir(…, 8, 4)` touches its local `y[11]` (size 12) and `_y[7]`, `_celt_autocorr(…, 0, 4, 12)`
+    touches `x[11]` and `ac[4]`, `pitch_downsample(…, 16, stereo)` touches `x[1][15]` and `x_lp[7]`. -/
+example : (firHits 8 4).any (fun h => h.arr == .x && h.idx == -4) = true ∧ (firHits 8 4).any (fun h => h.arr == .x && h.idx == 7) = true ∧
+    (firHits 8 4).length = 46 ∧
+    (iirHits 8 4).any (fun h => h.arr == .yloc && h.idx == 11) = true ∧ (iirHits 8 4).any (fun h => h.arr == .y && h.idx == 7) = true ∧
+    (autocorrHits 0 4 12).any (fun h => h.arr == .x && h.idx == 11) = true ∧ (autocorrHits 0 4 12).any (fun h => h.arr == .ac && h.idx == 4) = true ∧
+    (pdownHits 16 true).any (fun h => h.arr == .x1 && h.idx == 15) = true ∧ (pdownHits 16 true).any (fun h => h.arr == .xlp && h.idx == 7) = true := by
+  decide
 
 end OpusProps.C01
